@@ -2,7 +2,7 @@
 from . import lin, common as C
 PROP = "C06"
 PROPS_FILE = "props/C06.v"
-RULE = ('cases = condition_on for every proper non-empty subset b (random order) of D<=4 coordinates and random subsets for D<=6, condition_on_explicit with the complement in random order; R in 1..4; 3 evaluation points' "; rational parameters (small integers over denominators 1,2,4; SPD = B B' + d I, cond <= 1e3), random constructor "
+RULE = ('cases = condition_on for every proper non-empty subset b (random order) of D<=4 coordinates and random subsets for D<=6, condition_on_explicit with the complement in random order and (half of them) some coordinates addressed from the end (negative indices); R in 1..4; 3 evaluation points' "; rational parameters (small integers over denominators 1,2,4; SPD = B B' + d I, cond <= 1e3), random constructor "
         "argument combination; non-trivial = more than one scalar dimension/component involved; distinct = SHA1 of the input description")
 EXPLANATION = ('model condition_on(_explicit) + condition_on_x (Pdf.v) at Qc vs implementation: M, b, Sigma, Lambda, ln_det_Sigma of the conditional and cond(x_b).evaluate_ln(x_a) (all R*N x N entries); oracle: cond(x_b)(x_a) + marginal(x_b) = independent joint normal log-density')
 coq_term = lin.coq_term
